@@ -5,6 +5,7 @@ package main
 // Coq model by the OCaml driver.
 
 import (
+	"encoding/json"
 	"fmt"
 	"sort"
 	"strconv"
@@ -321,8 +322,8 @@ func (x *W) parseFilter(toks []string) (ecs.Filter, []string) {
 func (x *W) parseFarg(toks []string) ecs.Filter {
 	if toks[0] == "C" {
 		k, _ := strconv.Atoi(toks[1])
-		if k < len(x.cached) && x.cached[k] != nil {
-			return x.cached[k]
+		if k < len(x.cached) {
+			return x.cached[k] // possibly a stale (unregistered) handle: the library must refuse it
 		}
 		panic("harness: cached filter not available")
 	}
@@ -636,12 +637,6 @@ func (h *H) exec(wk int, cmd string, a []string, idxSeed int) (res string, msg s
 		return "n " + strconv.Itoa(len(x.cached)-1), ""
 	case "CUNREG":
 		k := atoi(a[0])
-		if k >= len(x.cached) || x.cached[k] == nil {
-			// unknown / already unregistered: use a stale copy if there is one
-			if k < len(x.cached) {
-				panic("harness: CUNREG of a consumed filter needs the stale handle")
-			}
-		}
 		x.w.Cache().Unregister(x.cached[k])
 		return "ok", ""
 	case "RESET":
@@ -673,6 +668,34 @@ func (h *H) exec(wk int, cmd string, a []string, idxSeed int) (res string, msg s
 			es[i] = d.Entities[id]
 		}
 		return "ok " + x.newSlots(es), ""
+	case "_DUMPCMP":
+		// second dump identical; handles survive a JSON round trip (harness-only op)
+		d := h.dumps[atoi(a[0][1:])]
+		d2 := x.w.DumpEntities()
+		if fmt.Sprint(d.Entities) != fmt.Sprint(d2.Entities) || fmt.Sprint(d.Alive) != fmt.Sprint(d2.Alive) || d.Next != d2.Next || d.Available != d2.Available {
+			x.chk = append(x.chk, fmt.Sprintf("second dump differs from the loaded dump: %v vs %v", d2, d))
+		}
+		js, err := json.Marshal(d)
+		var back ecs.EntityDump
+		if err != nil || json.Unmarshal(js, &back) != nil || fmt.Sprint(back) != fmt.Sprint(d) {
+			x.chk = append(x.chk, "dump does not survive a JSON round trip")
+		}
+		for i, e := range d.Entities {
+			if i == 0 {
+				continue
+			}
+			isAlive := false
+			for _, id := range d.Alive {
+				if int(id) == i {
+					isAlive = true
+				}
+			}
+			// every handle of the dump gets the same Alive answer in the loaded world
+			if x.w.Alive(ecs.Entity(back.Entities[i])) != isAlive && e.ID() == uint32(i) {
+				x.chk = append(x.chk, fmt.Sprintf("load: handle %v alive=%v, dump says %v", e, !isAlive, isAlive))
+			}
+		}
+		return "ok", ""
 	case "RESREG":
 		ct := typeForKey(atoi(a[0]))
 		id := ecs.ResourceTypeID(x.w, ct.tp)
